@@ -44,7 +44,7 @@ def handle (req : Json) : Except String Json := do
       ("bm25", r .bm25), ("wand", r .wand), ("bmw", r .bmw),
       ("hook", c.plan.tree.custom),
       ("scan", (qualified c.plan).isEmpty),
-      ("bounds_ok", boundsOk), ("block_bounds_ok", blockOk),
+      ("bounds_ok", boundsOk), ("valid_bounds", ins.all fun s => validBounds s.terms), ("wf", ins.all fun s => s.scan || s.wf), ("block_bounds_ok", blockOk),
       ("refines", refines), ("repaired_bmw_eq_brute", repaired),
       ("knife_wand", ins.any (fun s => !s.scan && knife k false s)),
       ("knife_bmw", ins.any (fun s => !s.scan && knife k true s)),
